@@ -66,9 +66,52 @@ pub fn run(opts: &HashMap<String, String>) -> i32 {
         let lits = gen::lit_types(parser);
         let lit = lits[rng.gen_range(0..lits.len())];
         let flag = rng.gen_range(0..5) == 0;
+        let rid = id * 1000;
+        if mode == "bounds" {
+            // C06: boundary numerals; each input is run in one read and with 1-byte reads (cold scanner path)
+            let flag = rng.gen_range(0..3) == 0;
+            let input = gen::gen_dimacs_bounds(parser, lit, &mut rng);
+            let base = RunCfg::reference(parser, lit, flag);
+            run_traced(rid, &input, &base);
+            let v = variant(&base, Policy::Fixed(1), "fixed1", 1, 0, seed);
+            run_traced(rid + 1, &input, &v);
+            runs += 2;
+            continue;
+        }
+        if mode == "layout" {
+            // C07: one abstract value, a canonical rendering (reference) and several alternative layouts
+            let mut base = RunCfg::reference(parser, lit, flag);
+            let group = format!("g{}", id);
+            let k = 6;
+            if parser == "log" {
+                base.flag = rng.gen_bool(0.4);
+                let v = gen::gen_log_value(&mut rng);
+                let canon = gen::render_log(&v, true, false, &mut rng);
+                crate::parsers::set_group(Some(group.clone()));
+                run_traced(rid, &canon, &base);
+                for j in 0..k {
+                    let alt = gen::render_log(&v, false, base.flag, &mut rng);
+                    let mut c = variant(&base, if j % 2 == 0 { Policy::Full } else { Policy::Random(4) }, "layout", if j % 2 == 0 { 16384 } else { 3 }, 0, seed ^ j);
+                    c.is_ref = false;
+                    run_traced(rid + 1 + j, &alt, &c);
+                }
+            } else {
+                let v = gen::gen_dimacs_value(parser, &mut rng);
+                let canon = gen::render_dimacs(&v, true, &mut rng);
+                crate::parsers::set_group(Some(group.clone()));
+                run_traced(rid, &canon, &base);
+                for j in 0..k {
+                    let alt = gen::render_dimacs(&v, false, &mut rng);
+                    let c = variant(&base, if j % 2 == 0 { Policy::Full } else { Policy::Fixed(1) }, if j % 2 == 0 { "full" } else { "fixed1" }, if j % 2 == 0 { 16384 } else { 1 }, 0, seed ^ j);
+                    run_traced(rid + 1 + j, &alt, &c);
+                }
+            }
+            crate::parsers::set_group(None);
+            runs += 1 + k;
+            continue;
+        }
         let input = pick_input(parser, &mode, &mut rng);
         let base = RunCfg::reference(parser, lit, flag);
-        let rid = id * 1000;
         run_traced(rid, &input, &base);
         runs += 1;
         let s = seed ^ id.rotate_left(11);
@@ -123,10 +166,10 @@ pub fn run(opts: &HashMap<String, String>) -> i32 {
                     let mut w = base.clone();
                     w.parser = format!("{}_parse", parser);
                     run_traced(rid + 2, &input, &w);
-                    run_measured(&input, &w, 1 << 26);
+                    run_measured(&input, &w, usize::MAX);
                     runs += 1;
                 }
-                run_measured(&input, &base, 1 << 26);
+                run_measured(&input, &base, usize::MAX);
             }
             "lines" => {
                 for (k, chunk) in [16384usize, 8, 1].iter().enumerate() {
@@ -134,6 +177,9 @@ pub fn run(opts: &HashMap<String, String>) -> i32 {
                     run_traced(rid + 1 + k as u64, &input, &v);
                     runs += 1;
                 }
+            }
+            "bounds" => {
+                // (the reference run above used pick_input; here the input is replaced, see below)
             }
             _ => {}
         }
